@@ -34,6 +34,11 @@ class Case:
     with the implementation's observable for each, and direct-predicate failures."""
 
     def __init__(self, kind, desc):
+        try:
+            import enc
+            enc.reset_opaque()
+        except ImportError:
+            pass
         self.kind = kind
         self.desc = desc
         self.requests = []       # (request, impl_observable, label, comparator)
@@ -56,6 +61,10 @@ def default_cmp(impl, model):
         return "driver_error: " + model["driver_error"]
     if isinstance(model, list) and len(model) == 2 and model[0] == "exc":
         if model[1] == "UNMODELLED":
+            return "SKIP"
+        if model[1] == "RecursionError" and impl != model:
+            # the model ran out of its fuel (the driver gives every parser 200) on a structure CPython's own
+            # recursion limit still accommodates: the model declines, it does not predict
             return "SKIP"
         if model[1] == "FMT":
             if impl[0] == "exc" and impl[1] in ("TypeError", "ValueError", "KeyError", "OverflowError"):
